@@ -22,7 +22,21 @@ a tree of `let` / `Option.bind` / `if` / `match` nodes in SSA (state-passing) fo
     `NaiveDateTime::parse_from_str(<literal>, "%Y-%m-%d %T").unwrap()` (evaluated at translation time to a civil date),
     `Duration::{days,hours,minutes,seconds}`; functions named as externs in the target description become
     parameters of the generated definition.
-  * closures are translated only as named extraction units (the argument of a given iterator adapter).
+  * closures are translated as named extraction units (the argument of a given iterator adapter), and — inside a translated
+    function — by lambda lifting: the closure of `.map(..)` / `successors(..)` and the body of a `for` loop become auxiliary
+    definitions `<fn>_closure_<n>` / `<fn>_loop_<n>` (numbered in source order; captured variables are leading parameters).
+  * loops are folds: `for x in a..b` / `a..=b` / a slice / `.chars()` / `.iter().enumerate()` = `List.foldl` (or `rt_foldlM` when the body
+    can panic) of the lifted body over `List.range` / `rt_range` / the list, the state being the tuple of the outer variables the body
+    assigns (`x = e`, `x += e`, `x.push(e)`, `x.push_str(e)`, `write!(x, ..)`); `continue` ends the iteration with the current state.
+    Iterator chains: `.chars()`, `.iter()`, `.into_iter()`, `.rev()`, `.enumerate()`, `.map(closure)`, `.sum::<uN>()`,
+    `.collect::<String / Vec<_>>()`, `.to_uppercase()` (ASCII), `char::from_u32`, `successors(Some(a), step)` (an unfold bounded by
+    fuel `a + 1`; see `rt_successors` in GenPrelude).
+  * `Option` as a value: `e?` in a function that returns `Option` (an early `None`, not a panic), `let x = match e { Some(v) => v,
+    None => return r };`, `if let Ok(x) = e`, `.expect(..)` / `.unwrap()` / `panic!` = panic; chrono's `checked_add_signed`,
+    `Duration::try_days/try_hours/try_minutes/try_seconds` with their bounds (GenPrelude); `f64 as i64` saturates.
+  * enums with payloads (`t_enum_val`): a generated inductive whose payload types outside the fragment are type parameters;
+    `Enum::Variant(args)` builds a value.  Types and functions outside the fragment named in the target description
+    (`abstract_types`, `extern_paths`, `extern_methods`, `extern_values`, `extern_var_fns`) become parameters of every definition of the unit.
 
 Anything else raises `Unsupported`: the committed snapshot of that definition is kept and the item is reported under
 "fallbacks" (not a violation; the tie for it falls back to the correspondence check alone).
@@ -34,8 +48,9 @@ from rustfrag import SourceFile, Unsupported
 
 REPO = os.environ.get("UMYA_REPO", "/repo")
 ROOT = os.path.dirname(os.path.dirname(os.path.abspath(__file__)))
-OUT = os.path.join(ROOT, "lean", "Umya", "Model", "Gen", "Fns.lean")
+OUT = os.environ.get("UMYA_FNS_OUT") or os.path.join(ROOT, "lean", "Umya", "Model", "Gen", "Fns.lean")
 
+ENUMV = {}       # enum with payloads -> {"params": [abstract type names], "variants": [(name, [types])]}
 SIGNED = ("i32", "i64")
 UNSIGNED = ("u8", "u32", "usize", "u64")
 INTS = SIGNED + UNSIGNED
@@ -67,8 +82,10 @@ def lean_type(t):
         if t[0] in ("opt", "res"): return f"Option ({lean_type(t[1])})" if t[1] != "?" else "Option Unit"
         if t[0] == "enum": return t[1] + "_tag"
         if t[0] == "tuple": return "(" + " × ".join(lean_type(x) for x in t[1]) + ")"
-        if t[0] == "list": return f"List ({lean_type(t[1])})"
+        if t[0] in ("list", "iter"): return f"List ({lean_type(t[1])})"
         if t[0] == "opaque": return "Unit"
+        if t[0] == "abs": return t[1]
+        if t[0] == "enumv": return "(" + " ".join([t[1] + "_val"] + ENUMV[t[1]]["params"]) + ")"
     raise Unsupported(f"type {t}")
 
 
@@ -82,6 +99,7 @@ class Fn:
         self.ret_ty = None
         self.consts = {}            # rust const name -> (lean term, type)
         self.depth = 0
+        self.loop_k = []            # continuations of the enclosing `for` bodies (`continue`)
 
     # ---------------------------------------------------------------- names and types
     def fresh(self, base):
@@ -97,6 +115,8 @@ class Fn:
         if k == "tuple": return ("tuple", [self.conv_type(x) for x in ty[1]])
         if k in ("array", "slice"): return ("list", self.conv_type(ty[1]))
         name, args = ty[1], ty[2]
+        if name in self.unit.spec.get("abstract_types", {}): return ("abs", self.unit.spec["abstract_types"][name])
+        if name in self.unit.spec.get("enum_vals", ()): return ("enumv", name)
         if name in INTS or name in ("bool", "f64", "char"): return name
         if name in ("String", "str") or name in self.unit.str_generics: return "str"
         if name == "Option": return ("opt", self.conv_type(args[0]))
@@ -112,6 +132,7 @@ class Fn:
         for item in reversed(pre):
             if item[0] == "let": tree = ("let", item[1], item[2], item[3], tree)
             elif item[0] == "bind": tree = ("bind", item[1], item[2], tree)
+            elif item[0] == "qbind": tree = ("qbind", item[1], item[2], tree)
             else: tree = ("join", item[2], [(item[1], item[3])], tree)
         return tree
 
@@ -122,6 +143,8 @@ class Fn:
         if k == "panic": return True
         if k == "let": return Fn.panics(tree[4])
         if k == "bind": return True
+        if k == "qbind": return Fn.panics(tree[3])
+        if k == "opt": return True
         if k == "ite": return Fn.panics(tree[2]) or Fn.panics(tree[3])
         if k == "match": return any(Fn.panics(t) for _, t in tree[2])
         if k == "join": return Fn.panics(tree[1]) or Fn.panics(tree[3])
@@ -135,11 +158,20 @@ class Fn:
         if k == "panic":
             assert mon
             return f"{sp}none"
+        if k == "opt":
+            assert mon
+            return f"{sp}{tree[1]}"
         if k == "let":
             return f"{sp}let {tree[1]} : {lean_type(tree[2])} := {tree[3]};\n" + self.emit(tree[4], mon, ind)
         if k == "bind":
             assert mon
             return f"{sp}Option.bind ({tree[2]}) fun {tree[1]} =>\n" + self.emit(tree[3], mon, ind)
+        if k == "qbind":
+            # `e?` in a function returning `Option`: `None` is a value (early return), not a panic
+            if not mon:
+                return f"{sp}Option.bind ({tree[2]}) fun {tree[1]} =>\n" + self.emit(tree[3], mon, ind)
+            return (f"{sp}match {tree[2]} with\n{sp}| none => (some none)\n{sp}| some {tree[1]} => (\n" +
+                    self.emit(tree[3], mon, ind + 1) + f"\n{sp}  )")
         if k == "ite":
             return (f"{sp}if {tree[1]} then (\n" + self.emit(tree[2], mon, ind + 1) + f"\n{sp}) else (\n" +
                     self.emit(tree[3], mon, ind + 1) + f"\n{sp})")
@@ -168,13 +200,16 @@ class Fn:
     def diverges(self, block):
         _, stmts, tail = block
         if tail is not None:
-            return tail[0] == "return" or (tail[0] == "if" and tail[3] is not None and self.diverges(tail[2]) and self.diverges(tail[3]))
+            return tail[0] in ("return", "continue") or (tail[0] == "if" and tail[3] is not None and self.diverges(tail[2]) and self.diverges(tail[3]))
         if not stmts: return False
         s = stmts[-1]
-        if s[0] == "expr" and s[1][0] == "return": return True
+        if s[0] == "expr" and s[1][0] in ("return", "continue"): return True
         if s[0] == "expr" and s[1][0] == "if" and s[1][3] is not None:
             return self.diverges(s[1][2]) and self.diverges(s[1][3])
         return False
+
+    def arm_diverges(self, body):
+        return body[0] == "return" or (body[0] == "block" and self.diverges(body))
 
     def assigned(self, block, acc=None, local=None):
         acc = [] if acc is None else acc
@@ -193,9 +228,65 @@ class Fn:
                 if tgt[0] == "path" and tgt[1][0] not in local and tgt[1][0] not in acc: acc.append(tgt[1][0])
             elif s[0] == "expr" and s[1][0] == "block":
                 self.assigned(s[1], acc, local)
-            elif s[0] in ("for",) or (s[0] == "expr" and s[1][0] == "match"):
-                raise Unsupported("assignment analysis of for / match statements")
+            elif s[0] == "expr" and s[1][0] == "mcall" and s[1][2] in ("push", "push_str") and s[1][1][0] == "path" and len(s[1][1][1]) == 1:
+                x = s[1][1][1][0]
+                if x not in local and x not in acc: acc.append(x)
+            elif s[0] == "for":
+                self.assigned(s[3], acc, local | set(self.pat_names(s[1])))
+            elif s[0] == "expr" and s[1][0] == "match":
+                for ap, _g, body in s[1][2]:
+                    self.assigned(body if body[0] == "block" else ("block", [], body), acc, local | set(self.pat_names(ap)))
         return acc
+
+    def pat_names(self, pat):
+        if pat[0] == "pbind": return [pat[1]]
+        if pat[0] in ("ptuple", "por"): return [n for q in pat[1] for n in self.pat_names(q)]
+        if pat[0] == "ppath" and pat[2]: return [n for q in pat[2] for n in self.pat_names(q)]
+        return []
+
+    def free_vars(self, e, env):
+        """names of `env` mentioned in an AST fragment (an over-approximation of its free variables), sorted"""
+        out = set()
+        def walk(x):
+            if isinstance(x, tuple):
+                if len(x) == 2 and x[0] == "path" and isinstance(x[1], list) and len(x[1]) == 1 and x[1][0] in env: out.add(x[1][0])
+                if len(x) == 3 and x[0] == "field" and x[1] == ("path", ["self"]) and ("self." + x[2]) in env: out.add("self." + x[2])
+                for y in x: walk(y)
+            elif isinstance(x, list):
+                for y in x: walk(y)
+        walk(e)
+        return sorted(n for n in out if not (isinstance(env[n][1], tuple) and env[n][1][0] == "opaque"))
+
+    def lift(self, kind, params, body, env, k_of=None, state_ty=None):
+        """lambda lifting: a closure / a loop body becomes an auxiliary definition `<fn>_<kind>_<n>` whose leading parameters are
+        the variables it captures.  params: [(rust name, type)].  Returns (call prefix, result type or None, can panic)."""
+        n = sum(1 for a in self.unit.aux if a["kind"] == kind and a["owner"] == self.name)
+        name = f"{self.name}_{kind}_{n}"
+        g = Fn(self.unit, self.src, name)
+        g.consts = self.consts
+        g.root = getattr(self, "root", self)
+        cap = [x for x in self.free_vars(body, env) if x not in [p for p, _ in params]]
+        env2, lparams = {}, []
+        for x in cap:
+            ln = g.fresh(x.replace("self.", "")); env2[x] = (ln, env[x][1]); lparams.append((ln, env[x][1]))
+        for pn, pt in params:
+            ln = g.fresh(pn); env2[pn] = (ln, pt); lparams.append((ln, pt))
+        tys = []
+        if k_of is None:
+            def k(env3, v):
+                if v is None: raise Unsupported("closure without a value")
+                tys.append("i32" if v[1] == "int?" else v[1]); return ("ret", v[0])
+        else:
+            k = k_of(g)
+        rec = {"kind": kind, "owner": self.name, "name": name, "fn": g, "params": lparams, "ret": None, "tree": None, "state_ty": state_ty}
+        self.unit.aux.append(rec)          # registered first: numbering follows the order of appearance in the source
+        g.depth = 1                        # no `return` / `?` out of a closure or a loop body
+        tree = g.lower_block(body if body[0] == "block" else ("block", [], body), env2, k)
+        rty = g.join_types(tys) if k_of is None else None
+        rec["tree"], rec["ret"] = tree, rty
+        call = f"{name}⟦X⟧" + "".join(" " + env[x][0] for x in cap)
+        return call, rty, Fn.panics(tree)
+
 
     def lower_block(self, block, env, k):
         _, stmts, tail = block
@@ -212,20 +303,43 @@ class Fn:
                 c = self.cond(tail[1], env, pre)
                 return self.wrap(pre, ("ite", c, self.lower_block(tail[2], env, k), self.lower_block(tail[3], env, k)))
             if tail[0] == "block": return self.lower_block(tail, env, k)
+            if tail[0] == "macro" and tail[1] in ("panic", "unreachable"): return ("panic",)
             if tail[0] == "match":
                 pre = []
                 scrut, arms = self.match_arms(tail, env, pre, k)
                 return self.wrap(pre, ("match", scrut, arms))
             pre = []
-            v = self.expr(tail, env, pre)
+            v = self.expr(tail, env, pre, self.ret_ty if self.depth == 0 else None)      # the tail of the function body has the return type
             return self.wrap(pre, k(env, v))
         s, rest = stmts[0], stmts[1:]
         kind = s[0]
         if kind == "let":
             _, pat, ty, e, _mut = s
             if e is None: raise Unsupported("let without initialiser")
-            pre = []
             want = self.conv_type(ty) if ty is not None else None
+            if e[0] == "match" and pat[0] == "pbind" and any(self.arm_diverges(b) for _, _, b in e[2]):
+                # `let x = match s { P => v, Q => return r };`: the rest of the block continues in the arms that have a value
+                if self.depth > 0: raise Unsupported("return inside a nested value block")
+                pre = []
+                sv, sty = self.expr(e[1], env, pre)
+                arms = []
+                for ap, guard, body in e[2]:
+                    if guard is not None: raise Unsupported("match guard")
+                    pt, env2 = self.pattern(ap, sty, env)
+                    blk = body if body[0] == "block" else ("block", [], body)
+                    if self.arm_diverges(body):
+                        arms.append((pt, self.lower_block(blk, env2, lambda e3, _v: ("panic",))))
+                    else:
+                        def kk(env3, v, pat=pat, want=want):
+                            if v is None: raise Unsupported("match arm without a value")
+                            val, vt = self.coerce(v[0], v[1], want) if want is not None else v
+                            if vt == "int?": vt = "i32"
+                            n = self.fresh(pat[1])
+                            env4 = dict(env); env4[pat[1]] = (n, vt)
+                            return ("let", n, vt, val, self.lower_stmts(rest, tail, env4, k))
+                        arms.append((pt, self.lower_block(blk, env2, kk)))
+                return self.wrap(pre, ("match", sv, arms))
+            pre = []
             v, vt = self.expr(e, env, pre, want)
             if want is not None: v, vt = self.coerce(v, vt, want)
             if vt == "int?": vt = "i32"            # an unsuffixed literal with no other constraint: Rust's default
@@ -267,9 +381,36 @@ class Fn:
             pre.append(("let", n, vt, v))
             env = dict(env); env[x] = (n, vt)
             return self.wrap(pre, self.lower_stmts(rest, tail, env, k))
+        if kind == "for":
+            return self.lower_for(s, rest, tail, env, k)
         if kind == "expr":
             e = s[1]
             if e[0] == "return": return self.lower_return(e, env)
+            if e[0] == "continue":
+                if not self.loop_k: raise Unsupported("continue outside a loop body")
+                return self.loop_k[-1](env, None)
+            if e[0] == "break": raise Unsupported("break")
+            if e[0] == "mcall" and e[2] in ("push", "push_str") and e[1][0] == "path" and len(e[1][1]) == 1 and e[1][1][0] in env and len(e[4]) == 1:
+                x = e[1][1][0]
+                xt = env[x][1]
+                pre = []
+                if isinstance(xt, tuple) and xt[0] == "list" and e[2] == "push":
+                    v, vt = self.expr(e[4][0], env, pre, xt[1]); v, vt = self.coerce(v, vt, xt[1]); new = f"({env[x][0]} ++ [{v}])"
+                elif xt == "str" and e[2] == "push":
+                    v, vt = self.expr(e[4][0], env, pre, "char")
+                    if vt != "char": raise Unsupported("String::push argument")
+                    new = f"({env[x][0]} ++ [{v}])"
+                elif xt == "str" and e[2] == "push_str":
+                    v, vt = self.expr(e[4][0], env, pre, "str")
+                    if vt != "str": raise Unsupported("String::push_str argument")
+                    new = f"({env[x][0]} ++ {v})"
+                else:
+                    raise Unsupported(f".{e[2]}() on {xt}")
+                n = self.fresh(x)
+                pre.append(("let", n, xt, new))
+                env = dict(env); env[x] = (n, xt)
+                return self.wrap(pre, self.lower_stmts(rest, tail, env, k))
+            if e[0] == "macro" and e[1] in ("panic", "unreachable"): return ("panic",)
             if e[0] == "macro" and e[1] == "assert":
                 pre = []
                 c = self.cond(e[2][0], env, pre)
@@ -315,6 +456,54 @@ class Fn:
             self.expr(e, env, pre)
             return self.wrap(pre, self.lower_stmts(rest, tail, env, k))
         raise Unsupported(f"statement {kind}")
+
+    def iter_expr(self, it, env, pre):
+        """the sequence a `for` runs over, as a Lean list: (term, element type)"""
+        if it[0] == "range":
+            a, at = self.expr(it[1], env, pre)
+            b, bt = self.expr(it[2], env, pre, at if at != "int?" else None)
+            if at == "int?": a, at = self.expr(it[1], env, [], bt)
+            if at == "int?": at = bt = "i32"
+            if at != bt or at not in UNSIGNED: raise Unsupported(f"range over {at} .. {bt}")
+            if it[3]: b = f"({b} + 1)"
+            return (f"(List.range {b})" if a == "0" else f"(rt_range {a} {b})"), at
+        v, vt = self.expr(it, env, pre)
+        if isinstance(vt, tuple) and vt[0] in ("iter", "list"): return v, vt[1]
+        raise Unsupported(f"for over {vt}")
+
+    def lower_for(self, s, rest, tail, env, k):
+        """`for pat in seq { body }` = a left fold over the sequence; the state is the tuple of the outer variables the body assigns"""
+        _, pat, it, body = s
+        pre = []
+        seq, elt = self.iter_expr(it, env, pre)
+        names = [x for x in self.assigned(body, None, set(self.pat_names(pat))) if x in env]
+        if pat[0] == "pbind": lp = [(pat[1], elt)]
+        elif pat[0] == "pwild": lp = [("_x", elt)]
+        elif pat[0] == "ptuple" and isinstance(elt, tuple) and elt[0] == "tuple" and len(elt[1]) == len(pat[1]) and all(q[0] in ("pbind", "pwild") for q in pat[1]):
+            lp = [((q[1] if q[0] == "pbind" else f"_x{i}"), t) for i, (q, t) in enumerate(zip(pat[1], elt[1]))]
+        else: raise Unsupported("for pattern")
+        params = [(x, env[x][1]) for x in names] + lp
+        def k_of(g):
+            def kb(env3, _v):
+                return ("ret", "()" if not names else env3[names[0]][0] if len(names) == 1 else "(" + ", ".join(env3[x][0] for x in names) + ")")
+            g.loop_k = [kb]
+            return kb
+        sty = "unit" if not names else env[names[0]][1] if len(names) == 1 else ("tuple", [env[x][1] for x in names])
+        call, _rty, mon = self.lift("loop", params, body, {x: v for x, v in env.items() if x not in names}, k_of, state_ty=sty)
+        st_args = "" if not names else " st" if len(names) == 1 else "".join(" st" + ".2" * i + (".1" if i < len(names) - 1 else "") for i in range(len(names)))
+        x_args = " x" if len(lp) == 1 else "".join(" x" + ".2" * i + (".1" if i < len(lp) - 1 else "") for i in range(len(lp)))
+        init = "()" if not names else env[names[0]][0] if len(names) == 1 else "(" + ", ".join(env[x][0] for x in names) + ")"
+        if not names: call_txt = f"(fun (st : Unit) x => {call}{x_args})"
+        else: call_txt = f"(fun st x => {call}{st_args}{x_args})"
+        env2 = dict(env)
+        new = []
+        for x in names:
+            n = self.fresh(x); new.append((n, env[x][1])); env2[x] = (n, env[x][1])
+        if not new: new = [(self.fresh("u"), "unit")]
+        first = ("opt", f"rt_foldlM {call_txt} {init} {seq}") if mon else ("ret", f"(List.foldl {call_txt} {init} {seq})")
+        if not names and not mon:
+            return self.wrap(pre, self.lower_stmts(rest, tail, env, k))
+        return self.wrap(pre, ("join", first, new, self.lower_stmts(rest, tail, env2, k)))
 
     def lower_return(self, e, env):
         if self.depth > 0: raise Unsupported("return inside a nested value block")
@@ -408,6 +597,10 @@ class Fn:
             segs, subs = pat[1], pat[2]
             if segs == ["None"] and isinstance(sty, tuple) and sty[0] == "opt": return "none", env
             if segs == ["Some"] and isinstance(sty, tuple) and sty[0] == "opt" and subs is not None and len(subs) == 1:
+                t, e2 = self.pattern(subs[0], sty[1], env)
+                return f"some {t}", e2
+            if segs == ["Err"] and isinstance(sty, tuple) and sty[0] == "res" and subs is not None and len(subs) == 1 and subs[0][0] == "pwild": return "none", env
+            if segs == ["Ok"] and isinstance(sty, tuple) and sty[0] == "res" and subs is not None and len(subs) == 1:
                 t, e2 = self.pattern(subs[0], sty[1], env)
                 return f"some {t}", e2
             if isinstance(sty, tuple) and sty[0] == "enum" and len(segs) == 2 and segs[0] in ("Self", sty[1]):
@@ -505,6 +698,8 @@ class Fn:
                 c = self.unit.const_value(self, x)
                 if c is not None: return c
                 raise Unsupported(f"unknown identifier {x}")
+            if len(segs) == 2 and segs[0] in self.unit.spec.get("enum_vals", ()):
+                return self.enum_ctor(segs[0], segs[1], [], env, pre)
             raise Unsupported("path expression " + "::".join(segs))
         if k == "field":
             if e[1] == ("path", ["self"]) and ("self." + e[2]) in env: return env["self." + e[2]]
@@ -568,7 +763,7 @@ class Fn:
             if vt == "int?" and dst in INTS: return (v, dst)
             if vt == "f64" and dst == "i64":
                 self.needs_F = True
-                return (f"(RFloat.toInt {v})", "i64")
+                return (f"(rt_f64_as_i64 {v})", "i64")
             if vt == "i32" and dst == "i64": return (v, dst)
             if vt in UNSIGNED and dst in UNSIGNED and UNSIGNED.index(vt) <= UNSIGNED.index(dst): return (v, dst)
             if vt in UNSIGNED and dst == "i64": return (f"(Int.ofNat {v})", dst)
@@ -642,12 +837,48 @@ class Fn:
                 if vt == "int?": vt = "i32"
                 return (f"(some {v})", ("opt", vt))
             if segs == ["String", "from"] and len(args) == 1: return self.expr(args[0], env, pre, "str")
+            if segs in (["Cow", "Owned"], ["Cow", "Borrowed"]) and len(args) == 1: return self.expr(args[0], env, pre, want)
+            if segs == ["Vec", "new"] and not args:
+                if not (isinstance(want, tuple) and want[0] == "list"): raise Unsupported("Vec::new() without a type")
+                return (f"([] : {lean_type(want)})", want)
+            if segs == ["char", "from_u32"] and len(args) == 1:
+                v, vt = self.expr(args[0], env, pre, "u32")
+                if vt != "u32": raise Unsupported("char::from_u32 argument")
+                return (f"(rt_char_from_u32 {v})", ("opt", "char"))
+            if segs[-1] == "successors" and len(args) == 2 and args[1][0] == "closure":
+                # `successors(first, step)` = a fuel-bounded unfold; fuel = the first value + 1 (measure: the value itself, which the
+                # theorem about the definition shows to decrease strictly); running out of fuel is `none`, like a panic
+                f0, ft = self.expr(args[0], env, pre)
+                if not (isinstance(ft, tuple) and ft[0] == "opt" and ft[1] in UNSIGNED): raise Unsupported(f"successors over {ft}")
+                params, app = self.closure_params(args[1], ft[1])
+                call, cty, mon = self.lift("closure", params, args[1][2], env)
+                if cty != ft and cty != ("opt", "?"): raise Unsupported(f"successors: step returns {cty}")
+                step = f"(fun x => {call}{app})" if mon else f"(fun x => some ({call}{app}))"
+                n = self.fresh("t"); pre.append(("bind", n, f"rt_successors {step} {f0}")); return (n, ("iter", ft[1]))
             if segs == ["String", "new"] and not args: return ("([] : List Char)", "str")
             if segs[0] == "Duration" and len(segs) == 2 and segs[1] in ("days", "hours", "minutes", "seconds") and len(args) == 1:
                 v, vt = self.expr(args[0], env, pre, "i64")
                 if vt != "i64": raise Unsupported("Duration argument")
                 mul = {"days": 86400, "hours": 3600, "minutes": 60, "seconds": 1}[segs[1]]
                 return (f"({v} * {mul})", "duration")
+            if segs[0] in ("Duration", "TimeDelta") and len(segs) == 2 and segs[1] in ("try_days", "try_hours", "try_minutes", "try_seconds") and len(args) == 1:
+                v, vt = self.expr(args[0], env, pre, "i64")
+                if vt != "i64": raise Unsupported("Duration argument")
+                mul = {"try_days": 86400, "try_hours": 3600, "try_minutes": 60, "try_seconds": 1}[segs[1]]
+                return (f"(rt_try_units {mul} {v})", ("opt", "duration"))
+            if len(segs) == 2 and segs[0] in self.unit.spec.get("enum_vals", ()):
+                return self.enum_ctor(segs[0], segs[1], args, env, pre)
+            xp = self.unit.spec.get("extern_paths", {}).get(tuple(segs))
+            if xp is not None:
+                pname, ptys, rty = xp
+                if len(args) != len(ptys): raise Unsupported("call of " + "::".join(segs) + ": arity")
+                vs = []
+                for a, pt in zip(args, ptys):
+                    v, vt = self.expr(a, env, pre, pt)
+                    v, vt = self.coerce(v, vt, pt); vs.append(v)
+                lt = " → ".join([lean_type(x) for x in ptys] + [lean_type(rty)])
+                if (pname, lt) not in self.unit.extra_params: self.unit.extra_params.append((pname, lt))
+                return (f"({pname} " + " ".join(vs) + ")", rty)
             if len(segs) == 1:
                 return self.unit.call(self, segs[0], args, env, pre)
             raise Unsupported("call of " + "::".join(segs))
@@ -655,12 +886,46 @@ class Fn:
             return self.method(e, env, pre, want)
         if k == "closure": raise Unsupported("closure in value position")
         if k == "range": raise Unsupported("range in value position")
-        if k == "try": raise Unsupported("`?`")
+        if k == "try":
+            if self.depth > 0: raise Unsupported("`?` inside a nested value block")
+            if not (isinstance(self.ret_ty, tuple) and self.ret_ty[0] == "opt"): raise Unsupported("`?` in a function that does not return Option")
+            v, vt = self.expr(e[1], env, pre)
+            if not (isinstance(vt, tuple) and vt[0] == "opt" and vt[1] != "?"): raise Unsupported(f"`?` on {vt}")
+            n = self.fresh("q"); pre.append(("qbind", n, v)); return (n, vt[1])
         if k == "return": raise Unsupported("return in value position")
         raise Unsupported(f"expression {k}")
 
+    def enum_ctor(self, enum, variant, args, env, pre):
+        """`Enum::Variant(args)` of an enum with payloads (generated inductive `<Enum>_val`)"""
+        info = ENUMV.get(enum)
+        if info is None: raise Unsupported(f"enum {enum}: no generated inductive")
+        vs = dict(info["variants"])
+        if variant not in vs: raise Unsupported(f"unknown variant {enum}::{variant}")
+        tys = [conv_payload(self.unit, t) for t in vs[variant]]
+        if len(tys) != len(args): raise Unsupported(f"{enum}::{variant}: arity")
+        out = []
+        for a, t in zip(args, tys):
+            v, vt = self.expr(a, env, pre, t)
+            v, vt = self.coerce(v, vt, t); out.append(v)
+        return ("(" + " ".join([f"{enum}_val.{variant}"] + out) + ")", ("enumv", enum))
+
+    def closure_params(self, clo, elt):
+        """the parameters of a closure applied to elements of type `elt`: ([(name, type)], how the lifted definition is applied to `x`)"""
+        pats = clo[1]
+        if len(pats) != 1: raise Unsupported("closure arity")
+        p0 = pats[0][0]
+        if p0[0] == "pbind": return [(p0[1], elt)], " x"
+        if p0[0] == "pwild": return [("_x", elt)], " x"
+        if p0[0] == "ptuple" and isinstance(elt, tuple) and elt[0] == "tuple" and len(elt[1]) == len(p0[1]) and all(q[0] in ("pbind", "pwild") for q in p0[1]):
+            n = len(p0[1])
+            return ([((q[1] if q[0] == "pbind" else f"_x{i}"), t) for i, (q, t) in enumerate(zip(p0[1], elt[1]))],
+                    "".join(" x" + ".2" * i + (".1" if i < n - 1 else "") for i in range(n)))
+        raise Unsupported("closure parameter pattern")
+
     def method(self, e, env, pre, want):
         _, recv, name, turbofish, args = e
+        ext = self.unit.extern_var_method(self, recv, name, args, env, pre)
+        if ext is not None: return ext
         # <literal date>.unwrap()
         if name == "unwrap" and recv[0] == "call" and recv[1][1][-1] == "parse_from_str" and recv[1][1][0] == "NaiveDateTime":
             a = recv[2]
@@ -672,6 +937,45 @@ class Fn:
         ext = self.unit.extern_method(self, recv, name, args)
         if ext is not None: return ext
         r, rt = self.expr(recv, env, pre)
+        mkey = name + (f"::<{turbofish[0][1]}>" if turbofish and turbofish[0][0] == "named" else "")
+        em = self.unit.spec.get("extern_methods", {}).get((rt if isinstance(rt, str) else rt[0], mkey))
+        if em is not None:
+            # a method of a type outside the fragment (chrono's `format`, `f64::to_string`): a parameter of the definition
+            pname, ptys, rty, can_panic = em
+            if len(args) != len(ptys): raise Unsupported(f"method .{name}(): arity")
+            vs = [r]
+            for a, pt in zip(args, ptys):
+                v, vt = self.expr(a, env, pre, pt)
+                v, vt = self.coerce(v, vt, pt); vs.append(v)
+            lt = " → ".join([lean_type(rt)] + [lean_type(x) for x in ptys] + [f"Option ({lean_type(rty)})" if can_panic else lean_type(rty)])
+            if (pname, lt) not in self.unit.extra_params: self.unit.extra_params.append((pname, lt))
+            call = f"({pname} " + " ".join(vs) + ")"
+            if can_panic:
+                n = self.fresh("t"); pre.append(("bind", n, call)); return (n, rty)
+            return (call, rty)
+        if name in self.unit.spec.get("transparent_methods", ()) and rt == "str" and not args: return (r, rt)
+        is_seq = isinstance(rt, tuple) and rt[0] in ("iter", "list")
+        if name == "chars" and rt == "str" and not args: return (r, ("iter", "char"))
+        if name in ("iter", "into_iter") and is_seq and not args: return (r, ("iter", rt[1]))
+        if name == "rev" and isinstance(rt, tuple) and rt[0] == "iter" and not args: return (f"(List.reverse {r})", rt)
+        if name == "enumerate" and isinstance(rt, tuple) and rt[0] == "iter" and not args:
+            return (f"(rt_enumerate {r})", ("iter", ("tuple", ["usize", rt[1]])))
+        if name == "to_uppercase" and rt == "str" and not args: return (f"(rt_to_uppercase {r})", "str")
+        if name == "map" and isinstance(rt, tuple) and rt[0] == "iter" and len(args) == 1 and args[0][0] == "closure":
+            params, app = self.closure_params(args[0], rt[1])
+            call, cty, mon = self.lift("closure", params, args[0][2], env)
+            if mon:
+                n = self.fresh("t"); pre.append(("bind", n, f"rt_mapM (fun x => {call}{app}) {r}")); return (n, ("iter", cty))
+            return (f"(List.map (fun x => {call}{app}) {r})", ("iter", cty))
+        if name == "sum" and isinstance(rt, tuple) and rt[0] == "iter" and not args:
+            t = self.conv_type(turbofish[0]) if turbofish else want
+            if t not in UNSIGNED or rt[1] != t: raise Unsupported(f"sum::<{t}> over {rt[1]}")
+            return (f"(List.sum {r})", t)
+        if name == "collect" and isinstance(rt, tuple) and rt[0] == "iter" and not args:
+            t = self.conv_type(turbofish[0]) if turbofish else want
+            if t == "str" and rt[1] == "char": return (r, "str")
+            if isinstance(t, tuple) and t[0] == "list" and (t[1] == rt[1] or t[1] == ("opaque", "_")): return (r, ("list", rt[1]))
+            raise Unsupported(f"collect::<{t}> of {rt[1]}")
         if name in ("as_ref", "into", "to_owned", "clone", "as_str", "borrow", "to_vec", "into_owned") and not args: return (r, rt)
         if name == "to_string" and not args:
             if rt == "int?": rt = "i32"
@@ -680,6 +984,11 @@ class Fn:
             return (f"(rt_parse_i32 {r})", ("res", "i32"))
         if name in ("unwrap", "expect") and isinstance(rt, tuple) and rt[0] in ("opt", "res"):
             n = self.fresh("t"); pre.append(("bind", n, r)); return (n, rt[1])
+        if name == "checked_add_signed" and rt == "datetime" and len(args) == 1:
+            a, at = self.expr(args[0], env, pre)
+            if at != "duration": raise Unsupported("checked_add_signed argument")
+            self.needs_C = True
+            return (f"(rt_checked_add_signed C {r} {a})", ("opt", "datetime"))
         if name in ("floor", "round") and rt == "f64" and not args:
             self.needs_F = True
             return (f"(RFloat.{name} {r})", "f64")
@@ -761,7 +1070,13 @@ class Unit:
         dep = self.spec.get("calls", {}).get(name)
         if dep is not None:
             lean_name, ptys, rty, can_panic = dep
+            if len(args) != len(ptys): raise Unsupported(f"call of {name}: arity")
+            # the callee's implicit parameters / panic effect as compiled on this run (or as in the snapshot kept for it)
+            sig = SIGS.get(lean_name, {})
+            if sig.get("mon") is not None: can_panic = sig["mon"]
             vs = []
+            if sig.get("F"): fn.needs_F = True; vs.append("F")
+            if sig.get("C"): fn.needs_C = True; vs.append("C")
             for a, pt in zip(args, ptys):
                 v, vt = fn.expr(a, env, pre, pt)
                 v, vt = fn.coerce(v, vt, pt); vs.append(v)
@@ -779,6 +1094,27 @@ class Unit:
                 return g
         return None
 
+    def extern_var_method(self, fn, recv, name, args, env, pre):
+        """`<variable>.method(args)` declared as an input of the fragment: a value (`extern_values`) or a function (`extern_var_fns`)
+        that becomes a parameter of every definition of the unit"""
+        if not (recv[0] == "path" and len(recv[1]) == 1): return None
+        g = self.spec.get("extern_values", {}).get((recv[1][0], name))
+        if g is not None and not args:
+            if (g[0], lean_type(g[1])) not in self.extra_params: self.extra_params.append((g[0], lean_type(g[1])))
+            return g
+        f = self.spec.get("extern_var_fns", {}).get((recv[1][0], name))
+        if f is not None:
+            pname, ptys, rty = f
+            if len(args) != len(ptys): raise Unsupported(f"method .{name}(): arity")
+            vs = []
+            for a, pt in zip(args, ptys):
+                v, vt = fn.expr(a, env, pre, pt)
+                v, vt = fn.coerce(v, vt, pt); vs.append(v)
+            lt = " → ".join([lean_type(x) for x in ptys] + [lean_type(rty)])
+            if (pname, lt) not in self.extra_params: self.extra_params.append((pname, lt))
+            return (f"({pname} " + " ".join(vs) + ")", rty)
+        return None
+
     def enum_method(self, fn, enum, name, recv, args, pre):
         dep = self.spec.get("enum_methods", {}).get((enum, name))
         if dep is None or args: raise Unsupported(f"method {enum}::{name}")
@@ -786,12 +1122,38 @@ class Unit:
         return (f"({lean_name} {recv})", rty)
 
 
-def fn_signature(fn, params, ret_ty, tree, extra):
+SIGS = {}        # lean name -> {"F": takes the float interface, "C": takes the calendar, "mon": can panic (None = unknown: snapshot)}
+
+
+def abstract_params(unit):
+    """type parameters of the definitions of a unit: the abstract types of its description and those of the payload enums it uses"""
+    out = set(unit.spec.get("abstract_types", {}).values())
+    for en in unit.spec.get("enum_vals", ()):
+        out |= set(ENUMV.get(en, {}).get("params", []))
+    return sorted(out)
+
+
+def conv_payload(unit, ty):
+    """payload type of an enum variant"""
+    k = ty[0]
+    if k == "named":
+        name = ty[1]
+        if name in ("Box", "Cow"): return conv_payload(unit, ty[2][-1])
+        if name in ("String", "str"): return "str"
+        if name == "bool": return "bool"
+        if name in INTS or name == "char": return name
+        ab = unit.spec.get("abstract_types", {}) if unit is not None else {}
+        return ("abs", ab.get(name, "Num" if name == "f64" else name))
+    raise Unsupported(f"payload type {ty}")
+
+
+def fn_signature(fn, params, ret_ty, tree, extra, needs_F=None, needs_C=None):
     mon = Fn.panics(tree)
     ps = ""
-    if fn.needs_F: ps += " (F : Type) [RFloat F]"
-    if fn.needs_C: ps += " (C : Chrono)"
-    for n, lt in extra: ps += f" ({n} : {lt})"
+    if fn.needs_F if needs_F is None else needs_F: ps += " (F : Type) [RFloat F]"
+    if fn.needs_C if needs_C is None else needs_C: ps += " (C : Chrono)"
+    for a in abstract_params(fn.unit): ps += f" ({a} : Type)"
+    for n, lt in sorted(extra): ps += f" ({n} : {lt})"        # sorted: the order in which the source mentions them is irrelevant
     for n, t in params: ps += f" ({n} : {lean_type(t)})"
     rt = lean_type(ret_ty)
     return ps, (f"Option ({rt})" if mon else rt), mon
@@ -821,10 +1183,31 @@ def compile_fn(unit, lean_name, decl, params_override=None, doc=""):
         if v is None: return ("ret", "()")
         t, ty = fn.coerce(v[0], v[1], fn.ret_ty)
         return ("ret", t)
+    first_aux = len(unit.aux)
     tree = fn.lower_block(decl["body"], env, k)
-    ps, rt, mon = fn_signature(fn, params, fn.ret_ty, tree, unit.extra_params)
+    auxs = unit.aux[first_aux:]
+    # the float interface, the calendar and the externs are parameters of every definition of the unit (closures and loop bodies
+    # lifted out of the function come first); `⟦X⟧` at a call of a lifted definition stands for exactly these arguments
+    nF = fn.needs_F or any(a["fn"].needs_F for a in auxs)
+    nC = fn.needs_C or any(a["fn"].needs_C for a in auxs)
+    xargs = (" F" if nF else "") + (" C" if nC else "") + "".join(" " + a for a in abstract_params(unit)) + "".join(" " + n for n, _ in sorted(unit.extra_params))
+    out = []
+    def emit_aux(owner):
+        for a in auxs:
+            if a["owner"] != owner: continue
+            emit_aux(a["name"])            # what it uses comes first
+            aps, art, amon = fn_signature(a["fn"], a["params"], a["ret"] if a["ret"] is not None else a["state_ty"], a["tree"], unit.extra_params, nF, nC)
+            what = "closure" if a["kind"] == "closure" else "body of the `for` loop"
+            short = doc.split("`: ")[0] + "`" if "`: " in doc else doc
+            out.append(f"/-- {short}: the {what} #{a['name'].rsplit('_', 1)[1]} of `{owner}` (captured variables first"
+                       + (", then the loop state, then the loop variable" if a["kind"] == "loop" else "") + f") -/\ndef {a['name']}{aps} : {art} :=\n"
+                       + a["fn"].emit(a["tree"], amon, 1) + "\n\n")
+    emit_aux(lean_name)
+    out = "".join(out)
+    ps, rt, mon = fn_signature(fn, params, fn.ret_ty, tree, unit.extra_params, nF, nC)
     body = fn.emit(tree, mon, 1)
-    return f"/-- {doc} -/\ndef {lean_name}{ps} : {rt} :=\n{body}\n"
+    SIGS[lean_name] = {"F": nF, "C": nC, "mon": mon}
+    return (out + f"/-- {doc} -/\ndef {lean_name}{ps} : {rt} :=\n{body}\n").replace("⟦X⟧", xargs)
 
 
 # ------------------------------------------------------------------------------------------------ targets
@@ -844,6 +1227,26 @@ def t_enum(lean_name, file, enum):
         vs = sources(file).enum_variants(enum)
         return (f"/-- translated from `{file}` enum `{enum}`: the variant tags, in declaration order -/\n"
                 f"inductive {lean_name} where\n" + "".join(f"  | {v}\n" for v in vs) + "  deriving DecidableEq, Repr\n")
+    return (lean_name, build)
+
+
+def t_enum_val(lean_name, file, enum):
+    """an enum with tuple variants as a Lean inductive; payload types outside the fragment (`f64` ↦ `Num`, other named types under
+    their own name) are type parameters"""
+    def build(sources):
+        vs = sources(file).enum_variants_typed(enum)
+        params, ctors = [], []
+        for v, tys in vs:
+            args = []
+            for i, t in enumerate(tys):
+                ct = conv_payload(None, t)
+                if isinstance(ct, tuple) and ct[0] == "abs" and ct[1] not in params: params.append(ct[1])
+                args.append(f" (a{i if len(tys) > 1 else ''} : {lean_type(ct)})")
+            ctors.append(f"  | {v}" + "".join(args) + "\n")
+        params = sorted(params)
+        ENUMV[enum] = {"params": params, "variants": vs}
+        return (f"/-- translated from `{file}` enum `{enum}`: the variants with their payloads; payload types outside the fragment are parameters -/\n"
+                f"inductive {lean_name}" + "".join(f" ({p} : Type)" for p in params) + " where\n" + "".join(ctors))
     return (lean_name, build)
 
 
@@ -963,6 +1366,53 @@ def csv_fragment(kind):
     return ("csv_" + kind, build)
 
 
+def date_guard_fragment():
+    """the end of `format_as_date`: the checked conversion, the early return of the number's own text, chrono's rendering"""
+    file = "src/helper/number_format/date_formater.rs"
+    def build(sources):
+        spec = {"file": file, "fn": "format_as_date",
+                "calls": {"excel_to_date_time_object_checked": ("excel_to_date_time_object_checked", ["f64", ("opt", "str")], ("opt", "datetime"), False)},
+                "extern_methods": {("f64", "to_string"): ("f64_to_string", [], "str", False),
+                                   ("datetime", "format"): ("chrono_format", ["str"], "str", True)}}
+        unit = Unit(spec, sources)
+        decl = unit.src.parse_fn("format_as_date")
+        stmts, tail = decl["body"][1], decl["body"][2]
+        def mentions(e):
+            if isinstance(e, (tuple, list)):
+                return (len(e) == 2 and e[0] == "path" and e[1] == ["excel_to_date_time_object_checked"]) or any(mentions(x) for x in e)
+            return False
+        idx = [i for i, st in enumerate(stmts) if mentions(st)]
+        if len(idx) != 1 or mentions(tail): raise Unsupported("format_as_date: the statement that converts the serial")
+        body = ("block", list(stmts[idx[0]:]), tail)
+        return compile_fn(unit, "format_as_date_tail", {"params": [("value", "f64"), ("format", "str")], "ret": "str", "body": body},
+                          doc=f"translated from `{file}` fn `format_as_date`: from the statement that calls `excel_to_date_time_object_checked` to the end "
+                              "(`f64_to_string` = `f64::to_string`, `chrono_format` = `NaiveDateTime::format(..).to_string()`, `none` = it panics)")
+    return ("format_as_date_tail", build)
+
+
+def csv_text_fragment():
+    """the double loop of `write_writer` as a whole: from `let mut data = String::new();` to the end of the row loop; value = `data`"""
+    file = "src/writer/csv.rs"
+    def build(sources):
+        spec = {"file": file, "fn": "write_writer",
+                "extern_values": {("option", "get_do_trim"): ("do_trim", "bool"), ("option", "get_wrap_with_char"): ("wrap_with_char", "str")},
+                "extern_var_fns": {("worksheet", "get_cell"): ("get_cell", [("tuple", ["u32", "u32"])], ("opt", "str"))},
+                "transparent_methods": ("get_cell_value", "get_value")}
+        unit = Unit(spec, sources)
+        decl = unit.src.parse_fn("write_writer")
+        stmts = decl["body"][1]
+        fors = [i for i, st in enumerate(stmts) if st[0] == "for"]
+        if len(fors) != 1 or fors[0] == 0: raise Unsupported("write_writer: the row loop")
+        init = stmts[fors[0] - 1]
+        if not (init[0] == "let" and init[1] == ("pbind", "data")): raise Unsupported("write_writer: `let mut data` in front of the row loop")
+        body = ("block", [init, stmts[fors[0]]], ("path", ["data"]))
+        return compile_fn(unit, "csv_text", {"params": [("max_column", "u32"), ("max_row", "u32")], "ret": "str", "body": body},
+                          doc=f"translated from `{file}` fn `write_writer`: `let mut data = String::new();` and the row loop (value: `data`); "
+                              "`get_cell (column, row)` = `worksheet.get_cell((column, row))` followed by `get_cell_value().get_value()`, "
+                              "`do_trim` / `wrap_with_char` = the getters of `option`")
+    return ("csv_text", build)
+
+
 DATE = "src/helper/date.rs"
 COORD = "src/helper/coordinate.rs"
 CRYPT = "src/helper/crypt.rs"
@@ -973,20 +1423,35 @@ TARGETS = [
     # C18
     t_fn("convert_date_crate", DATE, "convert_date_crate"),
     t_fn("get_default_timezone", DATE, "get_default_timezone"),
-    t_fn("excel_to_date_time_object", DATE, "excel_to_date_time_object",
+    t_fn("excel_to_date_time_object_checked", DATE, "excel_to_date_time_object_checked",
          calls={"get_default_timezone": ("get_default_timezone", [], "str", False)}),
+    t_fn("excel_to_date_time_object", DATE, "excel_to_date_time_object",
+         calls={"get_default_timezone": ("get_default_timezone", [], "str", False),
+                "excel_to_date_time_object_checked": ("excel_to_date_time_object_checked", ["f64", ("opt", "str")], ("opt", "datetime"), False)}),
+    # C19
+    date_guard_fragment(),
     # C01 / C02
     t_enum("CellRawValue_tag", RAW, "CellRawValue"),
     t_fn("raw_get_data_type", RAW, "get_data_type", self_type="CellRawValue", enums={"CellRawValue": RAW}),
     t_fn("get_data_type_crate", CV, "get_data_type_crate", self_type="CellValue", enums={"CellRawValue": RAW},
          enum_methods={("CellRawValue", "get_data_type"): ("raw_get_data_type", "str")}),
+    # C03
+    t_enum_val("CellRawValue_val", RAW, "CellRawValue"),
+    t_fn("guess_typed_data", CV, "guess_typed_data", self_type="CellValue", enum_vals=("CellRawValue",),
+         abstract_types={"f64": "Num"},
+         extern_paths={("CellErrorType", "from_str"): ("error_from_str", ["str"], ("res", ("abs", "CellErrorType")))},
+         extern_methods={("str", "parse::<f64>"): ("parse_f64", [], ("res", ("abs", "Num")), False)}),
     # C20
     csv_fragment("field"),
     csv_fragment("row"),
+    csv_text_fragment(),
     # C17
     t_fn("coordinate_from_index", COORD, "coordinate_from_index", extern_fns={"string_from_column_index": (["u32"], "str", True)}),
     t_fn("coordinate_from_index_with_lock", COORD, "coordinate_from_index_with_lock", extern_fns={"string_from_column_index": (["u32"], "str", True)}),
     t_fn("column_index_from_string", COORD, "column_index_from_string", str_generics=["S"], extern_fns={"alpha_to_index": (["str"], "u32", True)}),
+    t_fn("alpha_to_index", COORD, "alpha_to_index", str_generics=["S"]),
+    t_fn("index_to_alpha", COORD, "index_to_alpha"),
+    t_fn("string_from_column_index", COORD, "string_from_column_index", calls={"index_to_alpha": ("index_to_alpha", ["u32"], "str", True)}),
     t_const("alpha_to_index_base_char_code", COORD, "BASE_CHAR_CODE", in_fn="alpha_to_index"),
     t_const("alpha_to_index_positional_constants", COORD, "POSITIONAL_CONSTANTS", in_fn="alpha_to_index"),
     t_closure("alpha_to_index_term", COORD, "alpha_to_index", "map", 0, ["usize", "char"], "u32"),
@@ -1028,6 +1493,9 @@ def main():
         except Exception as ex:
             m = re.search(r"-- BEGIN " + re.escape(name) + r"\n(.*?)-- END " + re.escape(name) + r"\n", old, re.S)
             txt = m.group(1) if m else None
+            if txt is not None:
+                hd = re.search(r"^def " + re.escape(name) + r"\b([^\n]*)", txt, re.M)
+                if hd: SIGS[name] = {"F": "[RFloat F]" in hd.group(1), "C": "(C : Chrono)" in hd.group(1), "mon": None}
             fallbacks.append({"function": name, "reason": (type(ex).__name__ + ": " + str(ex))[:200], "snapshot_kept": bool(m)})
         if txt is not None:
             parts.append(f"-- BEGIN {name}\n{txt}-- END {name}\n")
